@@ -248,7 +248,11 @@ func (w *vfWorld) NewProxy(flags ...string) (*vfProxy, error) {
 	return w.NewProxyAlpha("", flags...)
 }
 
-var vfBuildMu sync.Mutex // option loading uses package-level state (viper/pflag, logger): build instances one at a time
+// Option loading and validation use package-level state (viper/pflag, and validation.Validate reconfigures the global
+// logger): instances are built one at a time and never while a request is being served (a real process configures
+// once before serving, so overlapping the two would manufacture races the program cannot have). Drivers hold the
+// read side for the duration of a request.
+var vfBuildMu sync.RWMutex
 
 func (w *vfWorld) NewProxyAlpha(alphaYAML string, flags ...string) (*vfProxy, error) {
 	return w.NewProxyRaw(alphaYAML, vfMergeFlags(w.BaseFlags(), flags...))
@@ -282,7 +286,7 @@ providers:
     audienceClaims: [aud]
     emailClaim: email
     groupsClaim: groups
-    userIDClaim: sub
+    userIDClaim: email
 ` + extra
 }
 
@@ -483,6 +487,8 @@ func (p *vfProxy) Do(r *vfReq) (resp *vfResp) {
 }
 
 func (p *vfProxy) serve(req *http.Request) (resp *vfResp) {
+	vfBuildMu.RLock()
+	defer vfBuildMu.RUnlock()
 	rw := httptest.NewRecorder()
 	resp = &vfResp{}
 	func() {
@@ -534,6 +540,8 @@ func (p *vfProxy) Server() *httptest.Server {
 // loopback client address; r.RemoteAddr is ignored.
 func (p *vfProxy) Wire(r *vfReq) *vfResp {
 	srv := p.Server()
+	vfBuildMu.RLock()
+	defer vfBuildMu.RUnlock()
 	addr := strings.TrimPrefix(srv.URL, "http://")
 	c, err := net.DialTimeout("tcp", addr, 5*time.Second)
 	if err != nil {
